@@ -86,6 +86,14 @@ Proof.
   - vm_compute. reflexivity.
 Qed.
 
+(* in that state the witness (session 0) is attached and reading while session 1 is attached and NOT reading *)
+Lemma w_serving : serving w_state 0 /\ ~ serving w_state 1.
+Proof.
+  split.
+  - split; [vm_compute; eexists; reflexivity|]. vm_compute. eexists. split; reflexivity.
+  - intros [_ [g [Hg Hb]]]. vm_compute in Hg. inversion Hg; subst. discriminate.
+Qed.
+
 End Witness.
 
 (* jettison_refuted: there is a reachable state and a structurally valid Message on which the handler, as found, never returns *)
